@@ -111,6 +111,19 @@ class ResQ:         # (quot + c) % m
         self.val = val
 
 
+class FuncRef:
+    def __init__(self, fi):
+        self.fi = fi
+
+
+def _lambda_as_def(lam: ast.Lambda):
+    fn = ast.parse("def _lambda(): pass").body[0]
+    fn.args = lam.args
+    fn.body = [ast.Return(value=lam.body)]
+    ast.fix_missing_locations(fn)
+    return fn
+
+
 class Ret(Exception):
     def __init__(self, v):
         self.v = v
@@ -123,7 +136,8 @@ class Rz(Exception):
 
 class TableEval:
     def __init__(self, fi: FuncInfo, mode: Optional[str], default_mode: Optional[str],
-                 qclass: Tuple[str, int], cmp2: int, rem_zero=False):
+                 qclass: Tuple[str, int], cmp2: int, rem_zero=False, prog=None):
+        self.prog = prog
         self.fi = fi
         self.mode = mode
         self.default_mode = default_mode
@@ -181,6 +195,22 @@ class TableEval:
         if isinstance(st, ast.Raise):
             name = src_of(st.exc.func if isinstance(st.exc, ast.Call) else st.exc)
             raise Rz(name)
+        if isinstance(st, ast.Try):
+            try:
+                self.block(st.body)
+            except Rz as r:
+                for h in st.handlers:
+                    names = [src_of(h.type)] if h.type is not None and not isinstance(h.type, ast.Tuple) else \
+                        ([src_of(e) for e in h.type.elts] if h.type is not None else [r.name])
+                    if r.name in names or h.type is None:
+                        self.block(h.body)
+                        break
+                else:
+                    raise
+            else:
+                self.block(st.orelse)
+            self.block(st.finalbody)
+            return
         if isinstance(st, ast.Pass):
             return
         if isinstance(st, ast.Assert):
@@ -213,7 +243,21 @@ class TableEval:
                 return self.env[n.id]
             if n.id in ("True", "False"):
                 return n.id == "True"
+            tbl = self.module_table(n.id)
+            if tbl is not None:
+                return tbl
+            f = self.resolve_func(n)
+            if f is not None:
+                return FuncRef(f)
             self.bad(n, "name")
+        if isinstance(n, ast.Subscript):
+            base = self.ev(n.value)
+            key = self.ev(n.slice)
+            if isinstance(base, dict) and isinstance(key, Mode):
+                if key.name in base:
+                    return base[key.name]
+                raise Rz("KeyError")
+            self.bad(n, "subscript")
         if isinstance(n, ast.Tuple):
             return tuple(self.ev(e) for e in n.elts)
         if isinstance(n, ast.Attribute):
@@ -221,6 +265,12 @@ class TableEval:
             if s.startswith("ROUNDING."):
                 return Mode(n.attr)
             self.bad(n, "attribute")
+        if isinstance(n, ast.Call) and isinstance(n.func, ast.Attribute) and n.func.attr == "get":
+            base = self.ev(n.func.value)
+            if isinstance(base, dict) and n.args:
+                key = self.ev(n.args[0])
+                if isinstance(key, Mode):
+                    return base.get(key.name, self.ev(n.args[1]) if len(n.args) > 1 else None)
         if isinstance(n, ast.Call):
             f = src_of(n.func)
             if f == "divmod" and len(n.args) == 2:
@@ -238,8 +288,9 @@ class TableEval:
                 self.bad(n, "abs operand")
             if f == "get_dflt_rounding_mode" and not n.args:
                 return Mode(self.default_mode)
-            if isinstance(n.func, ast.Name) and n.func.id in self.fi.module.functions and self.depth < 3:
-                return self.inline(self.fi.module.functions[n.func.id], [self.ev(a) for a in n.args],
+            callee = self.resolve_func(n.func)
+            if callee is not None and self.depth < 3:
+                return self.inline(callee, [self.ev(a) for a in n.args],
                                    {k.arg: self.ev(k.value) for k in n.keywords}, n)
             if f in ("int", "bool") and len(n.args) == 1:
                 v = self.ev(n.args[0])
@@ -278,6 +329,47 @@ class TableEval:
         self.bad(n, "expression")
 
     depth = 0
+    prog = None
+
+    def resolve_func(self, fnode):
+        """A called expression that denotes a repo function: a name (possibly imported), or an entry of a
+        module-level dispatch table indexed by the rounding mode."""
+        if isinstance(fnode, ast.Name):
+            if fnode.id in self.env and isinstance(self.env[fnode.id], FuncRef):
+                return self.env[fnode.id].fi
+            if fnode.id in self.fi.module.functions:
+                return self.fi.module.functions[fnode.id]
+            if self.prog is not None:
+                r = self.prog.resolve_global(self.fi.module, fnode.id)
+                if r and r[0] == "func":
+                    return r[1]
+            return None
+        if isinstance(fnode, ast.Subscript):
+            v = self.ev(fnode)
+            return v.fi if isinstance(v, FuncRef) else None
+        return None
+
+    def module_table(self, name):
+        """NAME = {ROUNDING.X: func | lambda, ...} at module level -> {mode name: FuncRef}"""
+        e = self.fi.module.globals.get(name)
+        if not isinstance(e, ast.Dict):
+            return None
+        out = {}
+        for k, v in zip(e.keys, e.values):
+            ks = src_of(k) if k is not None else ""
+            if not ks.startswith("ROUNDING."):
+                return None
+            if isinstance(v, ast.Name):
+                f = self.resolve_func(v)
+                if f is None:
+                    return None
+                out[ks.split(".")[1]] = FuncRef(f)
+            elif isinstance(v, ast.Lambda):
+                from .loader import FuncInfo
+                out[ks.split(".")[1]] = FuncRef(FuncInfo(f"<lambda {ks}>", self.fi.module, None, _lambda_as_def(v), "function"))
+            else:
+                return None
+        return out
 
     def inline(self, callee, args, kwargs, node):
         """Evaluate a module-level helper in the same abstract domain (extracted sub-expressions)."""
@@ -367,6 +459,12 @@ class TableEval:
 
     def cmp(self, op, l, r, node) -> bool:
         opn = type(op).__name__
+        if isinstance(l, FuncRef) or isinstance(r, FuncRef):
+            same = (l is r) or (isinstance(l, FuncRef) and isinstance(r, FuncRef) and l.fi is r.fi)
+            if opn in ("Eq", "Is"):
+                return same
+            if opn in ("NotEq", "IsNot"):
+                return not same
         if isinstance(l, Mode) or isinstance(r, Mode) or l is None or r is None:
             if opn in ("Eq", "Is"):
                 return self.same_mode(l, r)
@@ -421,17 +519,19 @@ class TableEval:
             return False
         if isinstance(v, Fraction):
             return v != 0
-        if isinstance(v, Mode):
+        if isinstance(v, (Mode, FuncRef)):
             return True
+        if isinstance(v, dict):
+            return bool(v)
         self.bad(node, "truth value")
 
 
-def decision_table(fi: FuncInfo, modes: List[str]):
+def decision_table(fi: FuncInfo, modes: List[str], prog=None):
     """Yield (mode, how, qclass, cmp2, outcome) for every cell."""
     for mode in modes:
         for how in ("explicit", "default"):
             for qc in quotient_classes():
                 for cmp2 in (-1, 0, 1):
                     ev = TableEval(fi, mode if how == "explicit" else None,
-                                   mode if how == "default" else "ROUND_HALF_EVEN", qc, cmp2)
+                                   mode if how == "default" else "ROUND_HALF_EVEN", qc, cmp2, prog=prog)
                     yield mode, how, qc, cmp2, ev.run()
